@@ -208,14 +208,19 @@ class SymInt(object):
         return self.concretize_in(self.rng[0], self.rng[1])
 
     def concretize_in(self, lo, hi):
-        """fork over the values lo..hi (deterministic order)"""
-        for v in range(lo, hi + 1):
-            if v == hi:
-                core.assume(z.eq_i(self.e, v))
-                return v
-            if core.decide(z.eq_i(self.e, v)):
-                return v
-        raise core.Abort("empty range")
+        """fork over the values lo..hi by binary search (deterministic decisions; infeasible
+        halves are pruned by the explorer's eager flip queries)"""
+        e = core.try_concretize(self.e)
+        if not is_sym(e):
+            return e
+        while lo < hi:
+            mid = (lo + hi) // 2
+            if core.decide(z.le(e, mid)):
+                hi = mid
+            else:
+                lo = mid + 1
+        core.assume(z.eq_i(e, lo))
+        return lo
 
     def __int__(self):
         return self.__index__()
